@@ -867,7 +867,7 @@ func (ex *Exec) setSelectResult(st *State, fr *Frame, x *ssa.Select, idx int, re
 // ---------- guard discipline (C10) ----------
 
 func (ex *Exec) guardCheck(st *State, fr *Frame, p PtrVal, write bool) {
-	if st.guards == nil || !st.guardOn {
+	if (st.guards == nil && st.watch == nil) || !st.guardOn {
 		return
 	}
 	ex.guardCheckSlow(st, fr, p, write)
